@@ -16,19 +16,22 @@ import (
 
 	"verifharness/gen"
 	"verifharness/iox"
+	"verifharness/refinflate"
 	"verifharness/stats"
+	"verifharness/synth"
 )
 
 // C11: the Reader delivers what it already has: no waiting on input it does not need.
 
 type C11Case struct {
-	Pkg     string `json:"pkg"` // flate | gzip | zlib
-	M       Member `json:"member"`
-	Point   int    `json:"point"`    // index of the flush point the source stops at; -1 = end of the stream
-	After   int    `json:"after"`    // 0 would block (over-demand sentinel), 1 a source error, 2 unrelated bytes
-	Chunks  []int  `json:"chunks"`   // chunking of the released prefix
-	BufSize int    `json:"buf_size"` // 0 = plain source (Reader's own 4096-byte bufio); else *bufio.Reader of this size
-	Reads   []int  `json:"reads"`
+	Pkg     string        `json:"pkg"` // flate | gzip | zlib
+	M       Member        `json:"member"`
+	Point   int           `json:"point"`    // index of the flush point the source stops at; -1 = end of the stream
+	After   int           `json:"after"`    // 0 would block (over-demand sentinel), 1 a source error, 2 unrelated bytes
+	Chunks  []int         `json:"chunks"`   // chunking of the released prefix
+	BufSize int           `json:"buf_size"` // 0 = plain source (Reader's own 4096-byte bufio); else *bufio.Reader of this size
+	Reads   []int         `json:"reads"`
+	Synth   *synth.Stream `json:"synth,omitempty"` // flate only: a synthesised stream (sync points = its empty stored blocks) instead of a written member
 }
 
 var errSourceBroke = errors.New("source broke after the flush point")
@@ -55,6 +58,21 @@ func drawC11(t *rapid.T) C11Case {
 		c.Point = -1
 	} else {
 		c.Point = rapid.IntRange(0, nf-1).Draw(t, "point")
+	}
+	if c.Pkg == "flate" && rapid.IntRange(0, 3).Draw(t, "usesynth") == 0 {
+		// block shapes no Writer here emits: e.g. a final non-empty stored block, fixed blocks, empty stored blocks as sync points
+		sy := drawSynth(t)
+		if rapid.Bool().Draw(t, "finalstored") {
+			sy.Blocks = append(sy.Blocks, synth.BlockSpec{Type: 0, N: rapid.IntRange(1, 300).Draw(t, "fsn"), Seed: 9, Alpha: 256})
+		}
+		if rapid.Bool().Draw(t, "syncs") {
+			at := rapid.IntRange(0, len(sy.Blocks)-1).Draw(t, "syncat")
+			bl := append([]synth.BlockSpec(nil), sy.Blocks[:at]...)
+			bl = append(bl, synth.BlockSpec{Type: 0, N: 0})
+			sy.Blocks = append(bl, sy.Blocks[at:]...)
+		}
+		c.Synth = sy
+		c.Point = rapid.IntRange(-1, 3).Draw(t, "spoint")
 	}
 	c.After = rapid.IntRange(0, 2).Draw(t, "after")
 	if rapid.Bool().Draw(t, "chunked") {
@@ -110,11 +128,33 @@ func newContainerWriter2(pkg string, m Member, dst io.Writer) (anyWriter, error)
 
 func checkC11(c C11Case) (labels []string, nontrivial bool, err error) {
 	defer guardPanic(&err)
-	z, points, err := flushTrace(c.Pkg, c.M)
-	if err != nil {
-		return nil, false, err
+	var z []byte
+	var points [][2]int
+	var data []byte
+	if c.Synth != nil {
+		if c.Pkg != "flate" {
+			return nil, false, fmt.Errorf("harness: synthesised C11 streams are flate only")
+		}
+		b := c.Synth.Build()
+		ref := refinflate.Inflate(b.Bytes, refinflate.Options{})
+		if e := selfCheck(b.Bytes, nil, ref); e != nil {
+			return nil, false, e
+		}
+		if ref.Verdict != refinflate.Valid || !bytes.Equal(ref.Out, b.Expected) {
+			return nil, false, &oracleError{"synthesised C11 stream is not valid"}
+		}
+		z, data = b.Bytes[:ref.EndByte], ref.Out
+		for _, sp := range ref.Syncs {
+			points = append(points, [2]int{sp.ByteEnd, sp.OutLen})
+		}
+	} else {
+		var err error
+		z, points, err = flushTrace(c.Pkg, c.M)
+		if err != nil {
+			return nil, false, err
+		}
+		data = c.M.Data.Bytes()
 	}
-	data := c.M.Data.Bytes()
 	release, want := len(z), len(data)
 	atEnd := c.Point < 0 || c.Point >= len(points)
 	if !atEnd {
@@ -162,12 +202,20 @@ func checkC11(c C11Case) (labels []string, nontrivial bool, err error) {
 		if n < 0 || n > len(p) {
 			return nil, false, fmt.Errorf("%s: Read returned n=%d for a %d-byte buffer", what, n, len(p))
 		}
+		// incremental comparison with D (a prefix check on the whole output each time would be quadratic)
+		bad := -1
+		for k := 0; k < n; k++ {
+			if pos := len(out) + k; pos >= len(D) || D[pos] != p[k] {
+				bad = pos
+				break
+			}
+		}
 		out = append(out, p[:n]...)
+		if bad >= 0 {
+			return nil, false, fmt.Errorf("%s: output is not the data written before that point (first difference at %d)", what, bad)
+		}
 		if src.Over > overBefore && handedBefore < len(D) {
 			return nil, false, fmt.Errorf("%s: after handing out %d bytes the Reader demanded more input from the source (which would block) although %d more bytes are decodable from what it already has", what, handedBefore, len(D)-handedBefore)
-		}
-		if !bytes.HasPrefix(D, out) && !(atEnd && bytes.HasPrefix(out, D)) {
-			return nil, false, fmt.Errorf("%s: output is not the data written before that point (first difference at %d)", what, firstDiff(out, D))
 		}
 		if e != nil {
 			rerr = e
@@ -194,6 +242,9 @@ func checkC11(c C11Case) (labels []string, nontrivial bool, err error) {
 		}
 	}
 	labels = append(labels, "pkg:"+c.Pkg, fmt.Sprintf("after:%d", c.After), fmt.Sprintf("bufio:%d", c.BufSize), "enc:"+c.M.Enc)
+	if c.Synth != nil {
+		labels = append(labels, "synthesised-stream")
+	}
 	if atEnd {
 		labels = append(labels, "prefix-ends-at-stream-end")
 	} else {
